@@ -40,6 +40,7 @@ theorem step_inv (V : Validated root tree G) {ph : Nat → Phase} {ctx ctx' : Ct
     (hrsuf : ∀ x, x ∈ rsuf → x ∈ rs) (hrsufN : rs.Nodup → rsuf.Nodup)
     (hcr : (cs ++ rs).Nodup)
     (hchild : ∀ c, c ∈ cs ++ rs → IsChild tree ni c ∧ (LateRight tree ni c → vni = .p3) ∧ (ph ni = .p2 → LateRight tree ni c))
+    (hasgp : ∀ p, p ∈ asg → p.2.parseNodeIndex = p.1)
     (hasg : ∀ p, p ∈ asg →
       (p.1 = ni ∧ (vni = .p2 → p.2.state = .initialized) ∧
         ∃ bn, ctx.nodes[ni]? = some (some bn) ∧ p.2.conditionalItems = bn.conditionalItems) ∨
@@ -103,7 +104,7 @@ theorem step_inv (V : Validated root tree G) {ph : Nat → Phase} {ctx ctx' : Ct
       subst hxn
       obtain ⟨b, hb⟩ := hasgni hv'
       exact hno b hb
-  refine ⟨ph', ⟨?_, ?_, ?_, ?_, ?_, ?_, ?_, ?_, ?_, ?_⟩, ?_⟩
+  refine ⟨ph', ⟨?_, ?_, ?_, ?_, ?_, ?_, ?_, ?_, ?_, ?_, ?_⟩, ?_⟩
   · -- stackNodup
     rw [hS]
     refine List.nodup_append.2 ⟨h.stackNodup, hsufN hnics hcsN, fun a ha b hb hab => ?_⟩
@@ -248,6 +249,12 @@ theorem step_inv (V : Validated root tree G) {ph : Nat → Phase} {ctx ctx' : Ct
         · rw [hrs' x h3] at hp2; cases hp2
       · rw [hother x hxn hm] at hp2
         exact h.p2two x pn' hx hp2
+  · -- pni
+    intro x bn' hx
+    rw [hN] at hx
+    rcases assign_get asg ctx.nodes x _ hx with ⟨b, hb, hv'⟩ | ⟨hold, _⟩
+    · cases hv'; exact hasgp _ hb
+    · exact h.pni x bn' hold
   · -- the potential drops
     apply total_lt
     · intro x _
@@ -330,7 +337,7 @@ theorem cond_inv (V : Validated root tree G) {ph : Nat → Phase} {ctx ctx' : Ct
       · subst hxr; rw [hr0]; intro h; cases h
       · have : ph' x = ph x := by simp [ph', hxn, hxr]
         rw [← this]; exact hx
-  refine ⟨ph', ⟨?_, ?_, ?_, ?_, ?_, ?_, ?_, ?_, ?_, ?_⟩, ?_⟩
+  refine ⟨ph', ⟨?_, ?_, ?_, ?_, ?_, ?_, ?_, ?_, ?_, ?_, ?_⟩, ?_⟩
   · rw [hS]; exact h.stackNodup
   · intro x hx
     rw [hS] at hx
@@ -409,6 +416,10 @@ theorem cond_inv (V : Validated root tree G) {ph : Nat → Phase} {ctx ctx' : Ct
         · have : ph' x = ph x := by simp [ph', hxn, hxr]
           rw [← this]; exact hp2
     exact h.p2two x pn' hx hx2
+  · intro x bn' hx
+    rcases hget x bn' hx with ⟨h1, h2⟩ | ⟨_, h2⟩
+    · subst h1; subst h2; exact h.pni x parent hcp
+    · exact h.pni x bn' h2
   · apply total_lt
     · intro x _
       rcases Classical.em (x = ni) with hxn | hxn
